@@ -34,6 +34,7 @@ structure Stmt where
   isImport : Bool
   imports : List Imp     -- imports of the statement, in source order (if `isImport`)
   line : Nat             -- startpos.lineno
+  col : Nat := 1         -- startpos.colno
 deriving DecidableEq, Repr, Inhabited
 
 inductive Block where
@@ -48,6 +49,10 @@ structure St where
   blocks : List Block
   order : List Nat        -- `import_blocks` (ids), new blocks are inserted at index 0
   nextId : Nat
+  /-- ids of import blocks that share their first line with a preceding statement
+      and extend past that line: rendered as "\n" when all their imports are gone
+      (`SourceToSourceImportBlockTransformation.pretty_print`) -/
+  nlIfEmpty : List Nat := []
 deriving Repr, Inhabited
 
 inductive Err where
@@ -125,9 +130,17 @@ def buildBlocks : Nat → List (Bool × List Stmt) → List Block × List Nat
     let (bs, ids) := buildBlocks n gs
     (.verbatim g false :: bs, ids)
 
+/-- ids (in `buildBlocks` numbering) of the import runs that start mid-line and contain a newline -/
+def midlineIds : Nat → List (Bool × List Stmt) → List Nat
+  | _, [] => []
+  | n, (true, g) :: gs =>
+    let rest := midlineIds (n + 1) gs
+    if (g.head?.map (·.col)).getD 1 ≠ 1 ∧ (stmtsText g).contains '\n' then n :: rest else rest
+  | n, (false, _) :: gs => midlineIds n gs
+
 def preprocess (ss : List Stmt) : St :=
   let (bs, ids) := buildBlocks 0 (groupRuns ss)
-  ⟨bs, ids, ids.length⟩
+  { blocks := bs, order := ids, nextId := ids.length, nlIfEmpty := midlineIds 0 (groupRuns ss) }
 
 /-! ### remove_import -/
 
@@ -206,7 +219,7 @@ def prologueLen : Bool → List Stmt → Nat
     if skip then 1 + prologueLen d' ss else 0
 
 def newImportBlock (id : Nat) : Block := .imports id 1 1 2 true []
-def sepBlock : Block := .verbatim [⟨['\n'], .comment, false, [], 1⟩] true
+def sepBlock : Block := .verbatim [⟨['\n'], .comment, false, [], 1, 1⟩] true
 
 /-- `insert_new_blocks_after_comments([block, sepblock])` -/
 def insertAfterComments (blocks : List Block) (nb : List Block) : List Block :=
@@ -226,8 +239,8 @@ def insertAfterComments (blocks : List Block) (nb : List Block) : List Block :=
 
 def insertNewImportBlock (st : St) : St × Nat :=
   let id := st.nextId
-  ({ blocks := insertAfterComments st.blocks [newImportBlock id, sepBlock],
-     order := id :: st.order, nextId := id + 1 }, id)
+  ({ st with blocks := insertAfterComments st.blocks [newImportBlock id, sepBlock],
+             order := id :: st.order, nextId := id + 1 }, id)
 
 def addImport (st : St) (imp : Imp) (maxLine : Option Nat) : Except Err St :=
   let (st1, id) := match selectBlock st imp maxLine with
